@@ -17,6 +17,12 @@ def search(chk):
 
 
 def replay(path):
+    import json
+    d = json.load(open(path))
+    rp = d.get("replay", d)
+    if rp.get("kind") in ("ui", "ui-history"):
+        from checks import c15_ui
+        return c15_ui.replay(rp)
     return ac.replay(path)
 
 
